@@ -33,7 +33,9 @@ Fixpoint remove_all (fuel : nat) (v s : str) : str :=
                    end
       end
   end.
-Definition strip_values (vals : list str) (s : str) : str := fold_left (fun acc v => remove_all (S (length acc)) v acc) vals s.
+(* the LAST filter's value first: the filters run in list order, so a later filter may insert its value inside a value an
+   earlier filter inserted (C04_filter_list: one pass per filter); undoing the passes in reverse order recovers the input *)
+Definition strip_values (vals : list str) (s : str) : str := fold_left (fun acc v => remove_all (S (length acc)) v acc) (rev vals) s.
 
 (* [o] is [b] minus a set of spans that start with '<' and end with '>' *)
 Fixpoint after_gts (b : str) : list str :=
